@@ -206,6 +206,9 @@ func c04BFS(r *Run, depth, shard int) {
 		MkReceive(UserA.Str, b1other, Attest(b1other, signers), "burn(0,1,555) same pair, other body"),
 		MkReceive(UserA.Str, pl, Attest(pl, signers), "plain(0,3)"),
 		MkReceive(UserA.Str, b3, Attest(b3, Keys[3:5]), "burn(1,1,7) bad attestation"),
+		// re-registers the messenger that the catalogue's removeRemoteTokenMessenger(1) takes away: a burn
+		// message minted before the removal must still not mint a second time afterwards
+		Act("addRemoteTokenMessenger(1) by A0", &cctptypes.MsgAddRemoteTokenMessenger{From: Owner.Str, DomainId: DomAvax, Address: RemoteMessenger1}),
 		MkSend(UserA.Str, DomEth, distinct32(0x21), []byte("a")),
 		MkSendWithCaller(UserA.Str, DomEth, distinct32(0x21), []byte("a"), distinct32(0x22)),
 		MkDeposit(UserA.Str, math.NewInt(9), DomEth, distinct32(0x24), "uusdc"),
